@@ -593,6 +593,13 @@ for spec in SPECS:
     for L in (0, 1, 4):
         SCEN.append(("convert", spec, L))
 
+# strided component views (IntArray = V3iArray.y ...) as the array under test and as the source of assignments
+VIEW_SPECS = build_view_specs(SPECS)
+for spec in VIEW_SPECS:
+    for L in range(0, LMAX + 1):
+        SCEN.append(("index", spec, L))
+        SCEN.append(("mask", spec, L))
+
 FUN = dict(index=scen_index, mask=scen_mask, readonly=scen_readonly, convert=scen_convert)
 for n, (g, spec, L) in enumerate(SCEN):
     name = "%s:%s:L%d" % (g, spec.name, L)
